@@ -34,12 +34,12 @@ theorem parseHeader_ok_iff (cfg : Cfg) (h c ck : Bytes) (n : Nat) :
   unfold parseHeader
   by_cases hm : hMagic h = cfg.magic
   · by_cases ho : oversized cfg (rstripNul (hCmd h)) (hLen h) = true
-    · simp only [hm, bne_self_eq_false, Bool.false_eq_true, ↓reduceIte, ho]
+    · simp only [hm, bne_self_eq_false, Bool.false_and, Bool.false_eq_true, ↓reduceIte, ho]
       constructor
       · intro x; cases x
       · rintro ⟨_, rfl, rfl, _, h5⟩
         rw [ho] at h5; cases h5
-    · simp only [hm, bne_self_eq_false, Bool.false_eq_true, ↓reduceIte, ho]
+    · simp only [hm, bne_self_eq_false, Bool.false_and, Bool.false_eq_true, ↓reduceIte, ho]
       constructor
       · intro x
         simp only [Except.ok.injEq, Prod.mk.injEq] at x
@@ -48,38 +48,51 @@ theorem parseHeader_ok_iff (cfg : Cfg) (h c ck : Bytes) (n : Nat) :
       · rintro ⟨_, rfl, rfl, rfl, _⟩
         rfl
   · have : (hMagic h != cfg.magic) = true := by simpa using hm
-    simp only [this, ↓reduceIte]
     constructor
-    · intro x; cases x
+    · intro x
+      simp only [this, Bool.true_and, ↓reduceIte] at x
+      split at x <;> cases x
     · rintro ⟨h1, _⟩; exact absurd h1 hm
 
+/-- `BadMagicError` exactly for a wrong magic - unless the length is over the limit too and the
+    size test comes first -/
 theorem parseHeader_badMagic_iff (cfg : Cfg) (h : Bytes) :
-    parseHeader cfg h = .error .badMagic ↔ hMagic h ≠ cfg.magic := by
+    parseHeader cfg h = .error .badMagic ↔
+      hMagic h ≠ cfg.magic ∧
+      (oversized cfg (rstripNul (hCmd h)) (hLen h) = true → cfg.sizeFirst = false) := by
   unfold parseHeader
   by_cases hm : hMagic h = cfg.magic
-  · simp only [hm, bne_self_eq_false, Bool.false_eq_true, ↓reduceIte, ne_eq, not_true_eq_false,
-      iff_false]
+  · simp only [hm, bne_self_eq_false, Bool.false_and, Bool.false_eq_true, ↓reduceIte, ne_eq,
+      not_true_eq_false, false_and, iff_false]
     split <;> simp
   · have : (hMagic h != cfg.magic) = true := by simpa using hm
-    simp [this, hm]
+    cases ho : oversized cfg (rstripNul (hCmd h)) (hLen h) <;>
+      cases hs : cfg.sizeFirst <;> simp [this, hm]
 
+/-- `OversizedPayloadError` exactly for an over-limit length - unless the magic is wrong too and
+    the magic test comes first -/
 theorem parseHeader_oversized_iff (cfg : Cfg) (h : Bytes) :
     parseHeader cfg h = .error .oversized ↔
-      hMagic h = cfg.magic ∧ oversized cfg (rstripNul (hCmd h)) (hLen h) = true := by
+      oversized cfg (rstripNul (hCmd h)) (hLen h) = true ∧
+      (hMagic h ≠ cfg.magic → cfg.sizeFirst = true) := by
   unfold parseHeader
   by_cases hm : hMagic h = cfg.magic
-  · simp only [hm, bne_self_eq_false, Bool.false_eq_true, ↓reduceIte, true_and]
+  · simp only [hm, bne_self_eq_false, Bool.false_and, Bool.false_eq_true, ↓reduceIte, ne_eq,
+      not_true_eq_false, false_imp_iff, and_true]
     split <;> simp_all
   · have : (hMagic h != cfg.magic) = true := by simpa using hm
-    simp [this, hm]
+    cases ho : oversized cfg (rstripNul (hCmd h)) (hLen h) <;>
+      cases hs : cfg.sizeFirst <;> simp [this, hm]
 
 /-- `_receive_header` never raises `BadChecksumError` -/
 theorem parseHeader_ne_badChecksum (cfg : Cfg) (h : Bytes) :
     parseHeader cfg h ≠ .error .badChecksum := by
   unfold parseHeader
   split
-  · simp
   · split <;> simp
+  · split
+    · simp
+    · split <;> simp
 
 /-! ### `step` on an item followed by anything -/
 
